@@ -999,6 +999,8 @@ class Interp:
             if cv is not UNKNOWN:
                 return to_value(cv)
             if isinstance(expr, ast.Call):
+                if ast.unparse(expr.func) == "re.compile" and len(expr.args) == 1 and isinstance(expr.args[0], ast.Constant) and isinstance(expr.args[0].value, str) and not expr.keywords:
+                    return Obj(None, {"pattern": Const(expr.args[0].value)}, label=f"re.Pattern({expr.args[0].value!r})")
                 hint = self.p.resolve_class(mod, expr.func)
                 return Term("global", f"{mod.name}.{name}", hint=hint)
             try:
@@ -1633,6 +1635,10 @@ class Interp:
             r = self.call_builtin(callee.name, args, kwargs, node, frame)
             if r is not NotImplemented:
                 return r
+        if self.opts.get("fold_re", True):
+            r = self.fold_re(callee, args, kwargs)
+            if r is not None:
+                return r
         fm = self.opts.get("foreign_model")
         if fm is not None and isinstance(callee, (Foreign, Term)):
             r = fm(self, callee, args, kwargs)
@@ -1692,6 +1698,48 @@ class Interp:
             t.hint = hook(callee, args, kwargs)
         ev = self.emit("call", node, term=t, callee=callee, args=args, kwargs=kwargs, resolved=None, foreign=True, inlined=False, awaited=awaited)
         self.maybe_raise(ev)
+        return t
+
+    def fold_re(self, callee, args, kwargs):
+        """Constant folding of re.match/fullmatch/search/compile when pattern (and subject) are literals.
+        Only the stdlib's pure regex functions are evaluated, on constants; no repository code runs."""
+        import re as _re
+        name = None
+        pat = None
+        rest = args
+        if isinstance(callee, Foreign) and callee.dotted in ("re.match", "re.fullmatch", "re.search", "re.compile"):
+            name = callee.dotted.split(".")[1]
+            if not args or not (isinstance(args[0], Const) and isinstance(args[0].v, str)):
+                return None
+            pat, rest = args[0].v, args[1:]
+        elif isinstance(callee, Term) and callee.op == "attr" and isinstance(callee.args[0], Obj) and callee.args[0].label.startswith("re.Pattern") and callee.args[1] in ("match", "fullmatch", "search"):
+            name = callee.args[1]
+            pat = callee.args[0].attrs["pattern"].v
+        else:
+            return None
+        if kwargs:
+            return None
+        if name == "compile":
+            try:
+                _re.compile(pat)
+            except _re.error:
+                return None
+            return Obj(None, {"pattern": Const(pat)}, label=f"re.Pattern({pat!r})")
+        if len(rest) != 1:
+            return None
+        subj = rest[0]
+        if isinstance(subj, Const) and isinstance(subj.v, str):
+            try:
+                m = getattr(_re, name)(pat, subj.v)
+            except _re.error:
+                return None
+            if m is None:
+                return Const(None)
+            return Obj(None, {"__groups__": Tup([Const(g) for g in m.groups()]), "__match0__": Const(m.group(0))}, label=f"re.Match({pat!r})")
+        # symbolic subject: keep the pattern visible to rules
+        t = Term("call", Term("attr", Obj(None, {"pattern": Const(pat)}, label=f"re.Pattern({pat!r})"), name), (subj,), ())
+        t.regex = (pat, name, subj)
+        self.emit("call", None, term=t, callee=callee, args=[subj], kwargs={}, resolved=None, foreign=True, inlined=False, awaited=False, regex=(pat, name, subj))
         return t
 
     def maybe_raise(self, ev):
@@ -1816,6 +1864,13 @@ class Interp:
                 return Term("call", Builtin(name), tuple(args), (), pytype="int")
         if name == "int" and len(args) == 1 and not isinstance(args[0], Const):
             return Term("call", Builtin(name), tuple(args), (), pytype="int")
+        if name in ("int", "float") and len(args) == 1 and isinstance(args[0], Const) and isinstance(args[0].v, (str, int, float)) and not isinstance(args[0].v, bool):
+            try:
+                return Const(int(args[0].v) if name == "int" else float(args[0].v))
+            except (ValueError, OverflowError):
+                x = Term("exc", "ValueError", f"{name}({args[0].v!r})")
+                self.emit("raise", node, value=x)
+                raise _Raise(x, node)
         if name == "callable" and len(args) == 1 and isinstance(args[0], (Fn, Cls)):
             return Const(True)
         if name in ("Exception", "ValueError", "TypeError", "KeyError", "IndexError", "AssertionError", "NotImplementedError", "AttributeError", "BaseException"):
@@ -1882,6 +1937,15 @@ class Interp:
             base = base.args[0]
             if meth not in ("items", "keys", "values", "get"):
                 return NotImplemented
+        if isinstance(base, Obj) and base.label.startswith("re.Match"):
+            if meth == "groups" and not args:
+                return base.attrs["__groups__"]
+            if meth == "group" and len(args) == 1 and isinstance(args[0], Const) and isinstance(args[0].v, int):
+                g = base.attrs["__groups__"].items
+                if args[0].v == 0:
+                    return base.attrs["__match0__"]
+                if 1 <= args[0].v <= len(g):
+                    return g[args[0].v - 1]
         if isinstance(base, Dct):
             if meth == "get" and 1 <= len(args) <= 2:
                 v = base.get(args[0])
